@@ -201,6 +201,40 @@ def enum_small(tier):
                 yield dict(kind='shipped', lib=L, smiles=smi)
 
 
+def scheme_witnesses(L):
+    """directed witnesses: candidate molecules built from every centre / descriptor pattern of the scheme file itself"""
+    from vlib import witness
+    ref, h = ref_scheme(L)
+    gas = L in ('BensonGA', 'PPY')
+    metal = None if gas else ('Ru' if L == 'XieGA2022' else 'Pt')
+    out = []
+    for frag in [f for _, _, f in ref.patterns] + [f for _, f in ref.desc]:
+        for smi in witness.witnesses(frag, metal):
+            if smi not in out:
+                out.append(smi)
+    return out
+
+
+def enum_witnesses(tier):
+    import random
+    seen = set()
+    for L in shipped.LIBS:
+        h = hashlib.sha1(open(scheme_path(L), 'rb').read()).hexdigest()
+        if h in seen:
+            continue
+        seen.add(h)
+        gas = L in ('BensonGA', 'PPY')
+        metal = None if gas else ('Ru' if L == 'XieGA2022' else 'Pt')
+        rnd = random.Random(1)          # fixed: the enumeration must be the same in every shard
+        for smi in scheme_witnesses(L):
+            yield dict(kind='shipped', lib=L, smiles=smi, found_by='pattern witness')
+            # neighbours of the witness: the same pattern in a larger / slightly different environment
+            for _ in range(2 if tier == 'quick' else 12):
+                m2 = mutate(smi, rnd, metal, gas)
+                if m2:
+                    yield dict(kind='shipped', lib=L, smiles=m2, found_by='mutated pattern witness')
+
+
 # -- coverage-guided search over molecules: the reference interpreter's pattern hits are the coverage signal -------------
 def mutate(smi, rnd, metal, gas):
     """one random structural edit of a molecule (add atom, raise a bond order, close a ring, remove an H, bind a metal,
@@ -269,6 +303,7 @@ def run_guided(ctx, fam, n):
         gas = L in ('BensonGA', 'PPY')
         metal = None if gas else ('Ru' if L == 'XieGA2022' else 'Pt')
         corpus = ['CC', 'C=CC', 'CCO', 'CC=O', 'c1ccccc1', 'C1CCCCC1', 'CC(C)C'] + ([] if gas else ['C[%s]' % metal, '[%s]CC[%s]' % (metal, metal), 'OC[%s]' % metal])
+        corpus += scheme_witnesses(L)
         corr = set(nm for nm, _ in ref.desc)
         before = len(ref.hits)
         for it in range(n):
@@ -299,5 +334,6 @@ FAMILIES = [
     Family('shipped-schemes', check_any, strategy=lambda tier: shipped_case(), n=(1400, 30000)),
     Family('synthetic-schemes', check_any, strategy=synthetic_strategy, n=(400, 8000)),
     Family('small-molecules-exhaustive', check_any, enumerate=enum_small),
+    Family('pattern-witnesses', check_any, enumerate=enum_witnesses),
     Family('coverage-guided', check_any, stateful=run_guided, n=(16 * 250, 16 * 6000)),
 ]
